@@ -16,7 +16,7 @@ STEP_ENV = {'K': 'v w', 'D': '$x', 'E': ''}        # E: set, but empty (the pare
 CHILD_ARGS = ['a$b', 'c d', "e'f"]
 BUILD_BFG = """
 project('n')
-global_options(['-DG=1', '-DGS="g h"'], lang='c')
+global_options(['-DG=1', '-DGS="g h"', opts.include_dir(header_directory('inc'))], lang='c')
 global_link_options(['-Wl,--as-needed'])
 lib = static_library('foo', files=['a.c', 'sub dir/my src&co.c'])
 plain = executable('plain', files=['main.c'])
@@ -26,7 +26,10 @@ drv = test_driver([executable('driver.sh'), '--opt'])
 test([executable('child.sh')] + %(child)r, driver=drv)
 test([executable('single.sh')], driver=drv)
 test(env.srcdir.append('stringy.sh').string() + ' "c 2" x', driver=drv)
-default(plain, withlib, out)
+pre = precompiled_header(file='pre.h')
+obj3 = object_file(file='main3.c', pch=pre, options=['-DONLY_OBJ=1'])
+third = executable('third', files=[obj3])
+default(plain, withlib, out, third)
 """ % {'step': STEP_ARGS, 'env': STEP_ENV, 'child': CHILD_ARGS}
 SPY = """#!/bin/sh
 { printf '%%s\\0' "%(name)s" "$@"; printf '\\036'; printf 'K=%%s\\0D=%%s\\0E=%%s\\0' "${K-UNSET}" "${D-UNSET}" "${E-UNSET}"; printf '\\035'; } >> "%(log)s"
@@ -72,6 +75,9 @@ class ProcessArguments(Bounded):
             w(src + '/sub dir/my src&co.c', 'int b(void) { return 0; }\n')
             w(src + '/main.c', 'int main(void) { return 0; }\n')
             w(src + '/main2.c', 'int a(void);\nint main(void) { return a(); }\n')
+            w(src + '/main3.c', 'int main(void) { return PRE - 3; }\n')
+            w(src + '/pre.h', '#define PRE 3\n')
+            w(src + '/inc/found.h', '')
             w(src + '/spy.sh', SPY % {'name': 'spy.sh', 'log': log, 'then': 'touch "$1"'}, 0o755)
             for n in ('driver.sh', 'child.sh', 'single.sh', 'stringy.sh'):
                 w(src + '/' + n, SPY % {'name': n, 'log': log, 'then': 'exit 0'}, 0o755)
@@ -142,15 +148,19 @@ class ProcessArguments(Bounded):
             cc = [r_[1] for r_ in recs if r_[0] == 'cc']
             compiles = [a for a in cc if '-c' in a]
             links = [a for a in cc if '-c' not in a]
-            if len(compiles) != 4 or len(links) != 2:
+            if len(compiles) != 6 or len(links) != 3:
                 return self.fail(case, raw, 'every_step_runs_once', compiles=compiles, links=links)
             sources = sorted(x for a in compiles for x in a if x.endswith('.c') and not x.startswith('-'))
-            want_sources = sorted(src + '/' + f for f in ('a.c', 'main.c', 'main2.c', 'sub dir/my src&co.c'))
+            want_sources = sorted(src + '/' + f for f in ('a.c', 'main.c', 'main2.c', 'main3.c', 'sub dir/my src&co.c'))
             if sources != want_sources:
                 return self.fail(case, raw, 'compile_receives_its_source_as_one_argument', got=sources, expected=want_sources)
             for a in compiles:
                 per_target = ['-DT=$5'] if any(x.endswith('main2.c') for x in a) else []
-                for opt in ['-DG=1', '-DGS="g h"'] + per_target:
+                per_target += ['-DONLY_OBJ=1'] if any(x.endswith('main3.c') for x in a) else []
+                # (the precompiled header is a step of its own: the options of the object that uses it are not its options)
+                if 'c-header' in a and any(x.startswith('-DONLY_OBJ') for x in a):
+                    return self.fail(case, raw, 'compile_receives_only_its_own_options', argv=a)
+                for opt in ['-DG=1', '-DGS="g h"', '-I' + src + '/inc'] + per_target:
                     if a.count(opt) != 1:
                         return self.fail(case, raw, 'compile_receives_each_option_once', option=opt, argv=a)
                 if not per_target and any(x.startswith('-DT') for x in a):
